@@ -63,8 +63,18 @@ XerVariants(n, v) ==
           \cup (IF HasTopDefault(Env, TRef(n))
                 THEN {VarPlan("BXER", Ser(XerTokens(Env, n, NoDefaults(Env, TRef(n)), WithDefaults(Env, TRef(n), v)), "lf"), "defaults-present")}
                 ELSE {})
+\* C06: the same abstract value in another in-memory representation must give the same canonical
+\* octets (and compare equal); also a structure obtained by decoding a non-canonical BER form
+CanonSyntaxes == {"DER", "UPER", "OER", "CXER"}
+Reps == {"perm", "pad", "defaults", "noise", "true"}
+RepPlans(n, v) ==
+  {<<OpBuild(1), OpEncode(1, s), OpBuildRep(2, r), OpCompare(1, 2), OpEncode(2, s)>> :
+      s \in CanonSyntaxes, r \in {x \in Reps : RepApplies(TRef(n), v, x)}}
+  \cup {<<OpBuild(1), OpEncode(1, s), OpDecodeLit(2, "DER", BerVar(Env, TRef(n), v, BerStyles[i]), StyleName(i)), OpCompare(1, 2), OpEncode(2, s)>> :
+           s \in CanonSyntaxes, i \in {16}}
 PlansFor(n, v) ==
-  CASE PlanSet = "variants" -> BerVariants(n, v) \cup PerOerVariants(n, v) \cup XerVariants(n, v)
+  CASE PlanSet = "reps" -> RepPlans(n, v)
+    [] PlanSet = "variants" -> BerVariants(n, v) \cup PerOerVariants(n, v) \cup XerVariants(n, v)
     [] PlanSet = "split" -> UNION {Splits(st[1], st[2]) : st \in Streams(n, v)}
     [] PlanSet = "chunks" -> UNION {(IF Len(st[2]) <= MaxCompose THEN AllChunkings(st[1], st[2]) ELSE {})
                                     \cup ByteWise(st[1], st[2]) : st \in Streams(n, v)}
